@@ -34,7 +34,8 @@ REAL_COMPONENTS = ["processscheduler.* (working tree of /repo)", "z3 engine 4.12
 STUB_COMPONENTS = ["wall clock (time.perf_counter -> SimClock)", "z3 timeout (virtual, per-check latency vs max_time)",
                    "z3 verbosity", "z3 parallel threads (option recorded, engine stays single-threaded)",
                    "uuid4 (keyed PRNG)", "random.randint (keyed PRNG)", "open() in processscheduler.base/.solver/.problem (in-memory SimFS)",
-                   "os.getcwd / os.cpu_count / os.path.isfile in base/solver", "rich print (recorder)"]
+                   "os.getcwd / os.cpu_count / os.path.isfile in base/solver", "rich print (recorder)",
+                   "solver.statistics() as printed by debug mode (stub: rlimit count only - the real ones carry wall-clock readings)"]
 
 
 def load_known():
